@@ -194,8 +194,8 @@ def blake_cases(tier, rng):
                     yield 'blake.trace %d %d %s None' % (n, pre, hx(M)), 'blake.trace.preset'
                     if l: yield 'blake.trace %d %d %s %d' % (n, pre, hx(M), 8 * l - 5), 'blake.trace.preset'
         # --- seeded random
-        for _ in range(12 if quick else 300):
-            l = rng.randrange(0, 5 * bb)
+        for _ in range(12 if quick else 1200):
+            l = rng.randrange(0, 5 * bb) if quick or rng.random() < .8 else rng.randrange(5 * bb, 16 * bb + 2)
             M = rb(rng, l)
             L = rng.choice([None, None, rng.randrange(0, 8 * l + 1) or None])
             yield 'blake %d %d %s %s' % (n, rng.getrandbits(4 * w) if rng.random() < .5 else 0, hx(M), oi(L)), 'blake.random'
@@ -251,8 +251,8 @@ def blake2_cases(tier, rng):
                     yield 'blake2.pre %s %d %s' % (v, pre, hx(M)), 'blake2.preset'
                     yield 'blake2.trace %s %d %s' % (v, pre, hx(M)), 'blake2.trace.preset'
         # --- seeded random
-        for _ in range(30 if quick else 600):
-            M = rb(rng, rng.randrange(0, 5 * bb))
+        for _ in range(30 if quick else 3000):
+            M = rb(rng, rng.randrange(0, 5 * bb) if quick or rng.random() < .8 else rng.randrange(5 * bb, 16 * bb + 2))
             k = {}
             if rng.random() < .5: k['outlen'] = rng.randrange(1, mx + 1)
             if rng.random() < .3: k['salt'] = rb(rng, l8)
